@@ -477,10 +477,14 @@ func (p *parser) InstantiateGenericFunction(genericFunc *ast.FuncDecl, genericTy
 	decl.Body = declParser.blockStatement(declParser.scope()).(*ast.BlockStmt)
 	declParser.ensureReturnStatementPresent(&decl, decl.Body)
 
-	if errorCollector.DidError() {
-		// remove the instantiation as we errored
-		genericFunc.Generic.Instantiations[genericModule] = slices.DeleteFunc(genericFunc.Generic.Instantiations[genericModule], func(f *ast.FuncDecl) bool { return f == &decl })
+	// only an error makes the instantiation fail, warnings (e.g. for '...') are passed on
+	if !slices.ContainsFunc(errorCollector.Errors, func(e ddperror.Error) bool { return e.Level == ddperror.LEVEL_ERROR }) {
+		apply(p.errorHandler, errorCollector.Errors)
+		return &decl, nil
 	}
+
+	// remove the instantiation as we errored
+	genericFunc.Generic.Instantiations[genericModule] = slices.DeleteFunc(genericFunc.Generic.Instantiations[genericModule], func(f *ast.FuncDecl) bool { return f == &decl })
 
 	return &decl, errorCollector.Errors
 }
